@@ -155,7 +155,8 @@ inductive IoFault
 
 /-- `appendFrame` for an entry -/
 def Writer.appendEntry (w : Writer) (idx : Nat) (data : Bytes) : Except SegErr Writer :=
-  if idx ≠ w.info.base + w.offsets.length then .error .nonMonotonic
+  if data.length > maxEntrySize then .error .other      -- ErrTooBig
+  else if idx ≠ w.info.base + w.offsets.length then .error .nonMonotonic
   else
     let fr := entryFrame data
     .ok { w with offsets := w.offsets ++ [u32 (w.writeOffset + u32 w.commitBuf.length)]
